@@ -117,27 +117,52 @@ AUX_THEOREMS = [
 ]
 TRUSTED = [
     "Lean 4.33.0 kernel; axioms limited to propext, Classical.choice, Quot.sound (audited by #print axioms on every run)",
-    "hand transcription of SplitIntoBins.__init__/fill/compute, _MdSeqMap, IterateBins.run, MapBins.run, "
-    "histogram.__init__ (bins given), get_example_bin, iter_bins_with_edges, cell_to_string and update_nested into "
-    "LenaModel/Model/C11.lean, validated by this correspondence check (cell states, _cur_context, yielded histograms "
-    "with edges/bins/context, exception class and position, outputs of IterateBins and MapBins on every generated case)",
+    "hand transcription of SplitIntoBins.__init__/fill/compute, _MdSeqMap, IterateBins.__init__/run, MapBins.__init__/run, "
+    "histogram.__init__ (bins given), get_example_bin, iter_bins_with_edges, cell_to_string (with its keyword arguments) and "
+    "update_nested into LenaModel/Model/C11.lean, validated by this correspondence check (cell states, _cur_context, "
+    "yielded histograms with edges/bins/context, exception class and position, outputs of IterateBins and MapBins, a "
+    "second compute(), on every generated case)",
     "the re-used transcriptions Model/C06.lean (get_bin_on_value, check_edges_increasing, init_bins), Model/NArr.lean "
     "(md_map, get_bin_on_index, itertools.product) and Model/C14.lean (Variable._update_context, get_data_context), "
-    "validated by their own checks and again here",
-    "dictionaries as slot vectors over the key alphabet of the case (DESIGN.md section 2); copy.deepcopy is the identity on values",
+    "validated by their own checks and again here; the oracle's expectation for context.variable is computed with the "
+    "real Variable._update_context (what it does to an existing context.variable is C14's subject)",
+    "dictionaries as slot vectors over the key alphabet of the case (DESIGN.md section 2)",
+    "VALUE MODEL: copy.deepcopy is the identity, an analysis is a function of its own state, MapBins' sequence a "
+    "function of one cell. Hence 'private copy', 'cells share nothing', 'the context as the value arrived' are NOT "
+    "theorems about object identity: that no object is shared between two cells, between a cell and the `seq` object "
+    "passed in, between _cur_context and a flow value's context, or between yielded contexts is checked by the harness "
+    "on the generated cases only (context-mutating elements, stateful sequences, re-use of the analysis and variable "
+    "objects for a second SplitIntoBins, a downstream element applied to the objects compute() yields, identity tests "
+    "on the contexts yielded by IterateBins/MapBins)",
+    "constructor acceptance is decided by the harness, not derived in the model: which `seq` is convertible to a "
+    "FillComputeSeq/Sequence (a tuple is not, see Sequence.__init__), which `arg_var` is a Variable, which "
+    "create_edges_str is callable, which select_bins a Selector accepts enter the model as Booleans",
     "the fixture elements (_CallStep, _MultiStep, _Acc in harness/props/c11.py = Step, AccKind in Model/C11Conc.lean); "
     "JSON line protocol encoders (harness/props/c11.py, drivers/C11.lean)",
+    "the driver searches bins with the guess `ind_min` (C06.bin1d_guess_independent: any in-range guess gives the same "
+    "index); the real code's floating-point guess is assumed in range",
 ]
 ASSUMPTIONS = [
-    "an analysis is observed through fill(value) and the generator returned by compute(); its state is a value "
-    "(in-place mutation of a value's context by the analysis is covered by the harness, not by the value model)",
-    "generators are iterated to their end; iterating compute() a second time is not modelled",
-    "the floating-point interpolation guess of get_bin_on_value_1d stays within [ind_min, ind_max] (C06: the result "
-    "then does not depend on it); edge values and coordinates are integers in the correspondence",
+    "an analysis is observed through fill(value), the call compute() (which may raise at once: FillComputeSeq.compute is "
+    "evaluated immediately - AnalysisE/SIB.computeE; the theorems about SIB.compute are the case of lazy post-elements) "
+    "and the generator it returns; its state is a value",
     "a second compute() on the same object is modelled under the assumption that iterating an analysis' compute() "
-    "does not change its state (checked with the stateless post-sequences of the correspondence)",
-    "float cases: coordinates and edges are multiples of 1/S (S = 2, 4, 8); the real code computes with the floats, "
-    "the model with the integers S*x, and every float of a result is mapped back exactly",
+    "does not change its state (checked with the stateless post-sequences of the correspondence); fill after compute is "
+    "not generated",
+    "stateful elements are modelled after the accumulator and in MapBins sequences only (not among the pre-elements): "
+    "'private copy per cell' is observed through the state of the accumulator and of stateful post-/map-elements",
+    "domain of the correspondence: edges are lists or tuples (any mixture) of integers, or of multiples of 1/S in float "
+    "cases; coordinates are integers/floats, tuples or lists of them; axes have at most 5 bins, flows at most 14 values, "
+    "1-3 dimensions; results in cells are numbers, tuples, (data, context) pairs or histograms, never Python lists "
+    "(md_map would descend into them) and never a bare tuple of the form (x, dict) (lena reads it as a pair); "
+    "MapBins(get_example_bin=...) and select_bins given as a list of types are not generated",
+    "float cases: the real code computes with the floats, the model with the integers S*x, every float of a result is "
+    "mapped back exactly; elements that test `type(data) is int` and mixtures of float sums with integer counts are "
+    "excluded there",
+    "the private attributes `_cur_context` and the cells' `_fill_compute` are read because cell_is_subflow and "
+    "context_is_last_inside speak about them; when they are not found they are not compared",
+    "cases whose model reply contains `unmodelled` are not compared; they are counted in the evidence notes and the "
+    "check fails when they exceed 1% of the cases",
 ]
 RULE = ("quick and thorough: (E) exhaustive small scope - for 1-d edges [0,2], [0,2,4], [0,1,3] and 2-d edges "
         "[[0,2],[0,2,4]] every flow of length <= 2 (thorough: <= 3 in 1-d) over all integer points from one below to one "
@@ -909,6 +934,18 @@ def model_requests(case):
     return [req]
 
 
+_NOTES = ["cases left to the model's `unmodelled` escape (not compared): 0 of 0"]
+_UNMODELLED = [0, 0]
+
+
+def _count_unmodelled(hit):
+    _UNMODELLED[1] += 1
+    if hit:
+        _UNMODELLED[0] += 1
+    _NOTES[0] = f"cases left to the model's `unmodelled` escape (not compared): {_UNMODELLED[0]} of {_UNMODELLED[1]}"
+    return _UNMODELLED[0] > max(20, _UNMODELLED[1] // 100)
+
+
 def _has_unmodelled(o):
     if isinstance(o, dict):
         return any(_has_unmodelled(v) for v in o.values())
@@ -972,8 +1009,10 @@ def compare(case, res, replies):
     m = replies[0]
     if "err" in m:
         return f"model driver error: {m['err']}"
+    if _count_unmodelled(_has_unmodelled(m)):
+        return "too many cases leave the modelled domain (`unmodelled` in the model's reply): " + _NOTES[0]
     if _has_unmodelled(m):
-        return None          # the case left the modelled domain (counted by classify)
+        return None          # the case left the modelled domain (counted in the evidence notes)
     if "init" in res or "init" in m:
         return None if res.get("init") == m.get("init") else f"__init__: impl {res.get('init')} vs model {m.get('init')}"
     if "fill" in res or "fill" in m:
@@ -1766,6 +1805,7 @@ def gen_cases(ctx):
     """a generator (the thorough scope is enumerated lazily)"""
     rng = ctx.rng
     ctx.exhaustive = False
+    ctx.notes = _NOTES                      # filled in by compare()
     for c in _systematic(ctx.tier):
         yield c
     for c in _systematic_two_level(ctx.tier):
@@ -1894,10 +1934,15 @@ def shrink(case):
 
 # ---- MANIFEST texts ------------------------------------------------------------------------
 LEVEL_TEXT = ("Lean 4 theorems about a transcribed model of SplitIntoBins / IterateBins / MapBins that is generic in the "
-              "analysis (any fill/compute machine), for edges of any dimension and flows of any length; the model is tied to "
-              "/repo by a correspondence check over concrete analyses (pre* acc post*, context-mutating, multi-result, raising) "
-              "and a direct oracle that recomputes every cell independently.")
+              "analysis (any fill/compute machine, compute() may raise when called or while iterated), for edges of any "
+              "dimension and flows of any length: routing = half-open cells, per-cell state = analysis on the cell's sub-flow, "
+              "values / number / exceptions of the yielded histograms, IterateBins cell by cell, MapBins cell by cell with "
+              "progress. The model is a VALUE model: absence of sharing between cells, with the caller's objects and between "
+              "yielded contexts ('private copy') is harness-only - a correspondence check over concrete analyses (pre* acc "
+              "post*, context-mutating, stateful, multi-result, raising, two-level splits, float coordinates) and a direct "
+              "oracle that recomputes every cell independently, re-uses the caller's objects and tests identity.")
 LEVEL_NOTE = ("Trusted: Lean kernel (+ propext, Classical.choice, Quot.sound), the hand transcription validated by the "
-              "correspondence run, the re-used C06/C14/NArr transcriptions, the fixture elements on both sides, the JSON protocol.")
+              "correspondence run, the re-used C06/C14/NArr transcriptions, the fixture elements on both sides, the JSON protocol; "
+              "object identity / copies are outside the model (harness only); constructor acceptance enters as Booleans.")
 TECHNIQUE = "Lean 4 proof over hand-written generic model + correspondence check on concrete analyses + per-cell recomputation oracle"
 DESIGN_REF = "DESIGN.md section 3, C11"
